@@ -165,7 +165,7 @@ pub fn run(r: &Run) {
     r.set_rule(RULE);
     r.assume("TableManager calls are synchronous and hold at most one shard lock at a time, so every interleaving of real threads is equivalent to running one call completely at a point where the other holds no lock: the points marked by the guarded hooks");
     r.assume("a lost peer's routes leave the RIB without per-route withdraw events; the subscriber removes them on the PeerDown event the daemon emits right after (RFC 7854 §4.9); graceful-restart retention (stale routes of a peer that is down) is out of this check's scope");
-    r.prop("subscribe-histories", r.tier.pick(60_000, 3_000_000), || arb_case(r.tier.pick(14, 24)), check);
+    r.prop("subscribe-histories", r.tier.pick(150_000, 4_000_000), || arb_case(r.tier.pick(14, 24)), check);
     r.prop("peer-pairing", r.tier.pick(20_000, 300_000), || proptest::collection::vec((0u8..N_PEERS, any::<bool>()), 0..16).prop_map(|events| PairCase { events }), check_pairing);
 }
 
